@@ -77,11 +77,13 @@ MIN_COUNTERS = {
 
 def plan(tier, seed):
     q = tier == 'quick'
-    secs = 40 if q else 600
-    sizes = {'chain': (60000, 2) if q else (1500000, 3),
-             'scale': (15000, 1) if q else (300000, 1),
-             'play': (16000, 5) if q else (400000, 6),
-             'timeline': (14000, 8) if q else (300000, 6)}
+    # budgets are in cases AND seconds: on an idle 16-core host quick takes
+    # ~15 s and thorough ~6 min; on a loaded one the `secs` cap ends the shards
+    secs = 40 if q else 570
+    sizes = {'chain': (120000, 2) if q else (3600000, 3),
+             'scale': (30000, 1) if q else (1000000, 1),
+             'play': (40000, 5) if q else (2100000, 6),
+             'timeline': (40000, 8) if q else (900000, 6)}
     shards = []
     for kind, (total, parts) in sizes.items():
         for p, (f, n) in enumerate(split(total, parts)):
